@@ -154,6 +154,27 @@ def check(run):
                                         bad = d
                             run.check(bad is None, r, m.short, 'self.%s = %s' % (t.attr, q.unparse(node.value)[:40]), 'an unpicklable %s is stored on the object' % bad, node)
     run.floor(n, 40, r, 'field assignments in reachable classes')
+    # closures / lambdas passed to constructors of reachable classes or to attach(): they end up stored on the interpreter
+    nargs = 0
+    for cname in REACHABLE_CLASSES:
+        if not prog.has_cls(cname):
+            continue
+        ci = prog.cls(cname)
+        for m in list(ci.methods.values()):
+            nested = {x.name for x in own_nodes(m.node) if isinstance(x, ast.FunctionDef)}
+            for c in [x for x in own_nodes(m.node) if isinstance(x, ast.Call)]:
+                tg, ext, ok = prog.resolve_call(c, prog.func_of(c) or m)
+                stores = any(t.name == '__init__' and t.cls is not None and t.cls.name in REACHABLE_CLASSES for t in tg) or \
+                    any(t.short in ('Interpreter.attach', 'Interpreter.bind') for t in tg) or (isinstance(c.func, ast.Attribute) and c.func.attr == 'append' and '_listeners' in q.unparse(c.func.value))
+                if not stores:
+                    continue
+                for a in list(c.args) + [k.value for k in c.keywords]:
+                    nargs += 1
+                    a = strip_cast(a)
+                    bad = isinstance(a, ast.Lambda) or (isinstance(a, ast.Name) and a.id in nested)
+                    run.check(not bad, r, m.short, 'argument %s of %s is picklable / copyable' % (q.unparse(a)[:30], q.unparse(c.func)[:40]),
+                              'a local function or lambda is stored on an object reachable from the interpreter: pickle fails and deepcopy shares it with the original', c)
+    run.floor(nargs, 10, r, 'arguments of storing calls in reachable classes')
 
 
 def rules_hooks(run):
